@@ -232,8 +232,8 @@ class Fill(Doc):
         propagate_broken = False
         for doc in self.docs:
             if isinstance(doc, AlwaysBreak):
+                # The item itself must stay broken, too: keep the wrapper.
                 propagate_broken = True
-                doc = doc.doc
 
             if doc is NIL:
                 continue
